@@ -5,7 +5,7 @@
 From Coq Require Import List NArith String Bool.
 Import ListNotations.
 From Verif Require Import Common.Base Common.Media1Util Model.AnnexB Model.H26xWriter Model.H26xDepack
-  Proofs.AnnexB Proofs.H26xWriter Proofs.H26xDepack.
+  Proofs.AnnexB Proofs.AnnexB4 Proofs.H26xWriter Proofs.H26xDepack Proofs.H26xFu.
 Open Scope N_scope.
 
 (* The bytes the writer emits are the depacketizer's outputs over the packets
@@ -16,10 +16,41 @@ Theorem c35_gate : forall (D : Type) (unm : unmarshal D) (isk : list N -> bool) 
 Proof. exact gate. Qed.
 Print Assumptions c35_gate.
 
-(* Composition with C34's round trip.  Premise (contract of pion/rtp's
+(* The reader over what the writers emit.  Every unit is written behind a
+   4-byte start code; the reader cuts exactly three zero bytes before the 1
+   (never more), so a unit keeps its own trailing zero bytes, and the last unit
+   ends with the stream.  The round trip is therefore exact for every non-empty
+   unit that has no 0 0 1 inside (nal_ok4: any number of trailing zeros, 0 0 0
+   allowed) - a larger domain than C34's nal_ok (no trailing zero, no 0 0 0,
+   needed there because 3-byte codes may follow: see
+   three_byte_code_eats_trailing_zero in Proofs/AnnexB4.v). *)
+Theorem c35_roundtrip_4byte_codes : forall sk cs us,
+  (forall b, sk b = false) ->
+  chunks_ok cs ->
+  List.concat cs = frame (map (fun n => (true, n)) us) ->
+  Forall (fun n => nal_ok4 n = true) us ->
+  read_all sk cs = (us, "eof"%string).
+Proof. exact roundtrip_all4. Qed.
+Print Assumptions c35_roundtrip_4byte_codes.
+
+Theorem c35_domain_contains_c34 : forall n, nal_ok n = true -> nal_ok4 n = true.
+Proof. exact nal_ok_nal_ok4. Qed.
+Print Assumptions c35_domain_contains_c34.
+
+(* units ending in zero bytes are in the domain and come back whole, also as
+   the last unit; behind a 3-byte code the same unit would lose a zero *)
+Example c35_trailing_zero_example :
+  let us := [[103; 66; 0; 31; 0]; [101; 136; 0; 0]; [65; 154; 0; 0; 0; 0]; [65; 0]] in
+  forallb nal_ok4 us = true /\ forallb nal_ok us = false /\
+  read_all (fun _ => false) [frame (map (fun n => (true, n)) us)] = (us, "eof"%string) /\
+  read_all (fun _ => false) [frame [(true, [101; 136; 0]); (false, [65; 154])]] = ([[101; 136]; [65; 154]], "eof"%string).
+Proof. vm_compute. repeat split. Qed.
+
+(* Composition with that round trip.  Premise (contract of pion/rtp's
    depacketizer): over a complete packet sequence it emits the carried units,
    each behind a 4-byte start code.  Then the matching reader, whatever the
-   chunking, returns exactly the units carried by the packets from the gate on. *)
+   chunking, returns exactly the units carried by the packets from the gate on,
+   trailing zero bytes included. *)
 Theorem c35_reader_sees_nals :
   forall (D : Type) (unm : unmarshal D) (d0 : D)
          (carried : list (list N) -> list (list N)) (complete : list (list N) -> Prop),
@@ -28,7 +59,7 @@ Theorem c35_reader_sees_nals :
   forall isk ps cs,
   let suffix := from_first isk (filter nonempty ps) in
   complete suffix ->
-  Forall (fun n => nal_ok n = true) (carried suffix) ->
+  Forall (fun n => nal_ok4 n = true) (carried suffix) ->
   chunks_ok cs ->
   List.concat cs = fst (write_all unm isk {| has_kf := false; dep := d0 |} ps) ->
   read_all (fun _ => false) cs = (carried suffix, "eof"%string).
@@ -58,7 +89,7 @@ Print Assumptions c35_h265_depack_contract.
 Theorem c35_h264_end_to_end : forall ps l cs,
   from_first is_key_frame_264 (filter nonempty ps) = flat_map enc264 l ->
   Forall wf_apkt l ->
-  Forall (fun n => nal_ok n = true) (flat_map carried264 l) ->
+  Forall (fun n => nal_ok4 n = true) (flat_map carried264 l) ->
   chunks_ok cs ->
   List.concat cs = fst (write_all unm264 is_key_frame_264 {| has_kf := false; dep := [] |} ps) ->
   read_all (fun _ => false) cs = (flat_map carried264 l, "eof"%string).
@@ -68,7 +99,7 @@ Print Assumptions c35_h264_end_to_end.
 Theorem c35_h265_end_to_end : forall ps l cs,
   from_first isk265 (filter nonempty ps) = flat_map enc265 l ->
   Forall wf_apkt5 l ->
-  Forall (fun n => nal_ok n = true) (flat_map carried265 l) ->
+  Forall (fun n => nal_ok4 n = true) (flat_map carried265 l) ->
   chunks_ok cs ->
   List.concat cs = fst (write_all unm265 isk265 {| has_kf := false; dep := [] |} ps) ->
   read_all (fun _ => false) cs = (flat_map carried265 l, "eof"%string).
@@ -137,7 +168,49 @@ Theorem c35_partial_h265_ap : forall p,
 Proof. exact partial_265_ap. Qed.
 Print Assumptions c35_partial_h265_ap.
 
+(* H.265 FU packets.  isKeyFrame takes data[2], the FU header S|E|FuType, for
+   a NAL header and looks at (data[2] & 0x7E) >> 1 = E*32 + FuType/2: it says
+   "keyframe" iff E = 0 and FuType is 38..41, or E = 1 and FuType is 0..5
+   (fu_code_says_key); the property says so iff S = 1 and FuType is one of
+   19 20 32 33 34 (fu_starts_key).  On every FU packet in neither set - and on
+   an FU packet without FU header - the answer is the property's ... *)
+Theorem c35_partial_h265_fu : forall p,
+  Forall (fun b => b < 256) p ->
+  guard265_fu p = true -> is_key_frame_265 p = Ok (prop_kf_265 p).
+Proof. exact partial_265_fu. Qed.
+Print Assumptions c35_partial_h265_fu.
+
+(* ... and the guard is exact: on every other FU packet the answer is wrong,
+   either a false yes or a missed keyframe start *)
+Theorem c35_partial_h265_fu_exact : forall b0 b1 fu rest,
+  type265 b0 = 49 -> fu < 256 ->
+  guard265_fu (b0 :: b1 :: fu :: rest) = false ->
+  is_key_frame_265 (b0 :: b1 :: fu :: rest) <> Ok (prop_kf_265 (b0 :: b1 :: fu :: rest)) /\
+  ((fu_code_says_key fu = true /\ prop_kf_265 (b0 :: b1 :: fu :: rest) = false) \/
+   (fu_code_says_key fu = false /\ prop_kf_265 (b0 :: b1 :: fu :: rest) = true)).
+Proof. exact partial_265_fu_exact. Qed.
+Print Assumptions c35_partial_h265_fu_exact.
+
+(* per fragment of a unit of type t (FU headers t, 128+t, 64+t): middle
+   fragments are misread iff t is 38..41, start fragments iff t is a keyframe
+   type or 38..41, end fragments iff t is 0..5 *)
+Theorem c35_h265_fu_fragments : forall t, t < 64 ->
+  let start := 128 + t in let middle := t in let stop := 64 + t in
+  (fu_code_says_key middle || fu_starts_key middle = ((38 <=? t) && (t <=? 41))) /\
+  (fu_code_says_key start || fu_starts_key start = (kf_nalu_265 t || ((38 <=? t) && (t <=? 41)))) /\
+  (fu_code_says_key stop || fu_starts_key stop = (t <? 6)).
+Proof. exact fu_fragments. Qed.
+Print Assumptions c35_h265_fu_fragments.
+
 (* premises are satisfiable *)
+Example c35_guard_fu_examples :
+  guard265_fu [98; 1; 1; 7; 7] = true /\           (* middle fragment of a TRAIL_R *)
+  guard265_fu [98; 1; 129; 7; 7] = true /\         (* its start fragment *)
+  guard265_fu [98; 1; 65; 7; 7] = false /\         (* its end fragment: taken for a keyframe *)
+  guard265_fu [98; 1; 147; 7; 7] = false /\        (* start fragment of an IDR_W_RADL: missed *)
+  guard265_fu [98; 1; 83; 7; 7] = true.            (* end fragment of the IDR *)
+Proof. vm_compute. repeat split. Qed.
+
 Example c35_guard_examples :
   guard264 [103; 66; 0; 31; 140] = true /\                                  (* SPS *)
   guard264 [120; 0; 4; 103; 66; 0; 31; 0; 2; 104; 206] = true /\            (* STAP-A [SPS; PPS] *)
